@@ -235,3 +235,42 @@ func (p *Program) closedOverCallers(pr *ssa.Parameter, pred func(arg ssa.Value, 
 	}
 	return true, false
 }
+
+// originLeaves is leavesOf continued through parameters: a leaf that is a parameter of a module function whose callers
+// can all be enumerated (static calls only, never used as a value) is replaced by the leaves of the corresponding
+// argument at every call site, up to the given depth.  What remains are values that originate somewhere: fields,
+// call results, constants, globals, and parameters of functions that can be called from outside.
+func (p *Program) originLeaves(v ssa.Value, depth int) []leaf {
+	var out []leaf
+	for _, l := range leavesOf(v) {
+		if l.Kind != leafParam || depth <= 0 || l.Param == nil {
+			out = append(out, l)
+			continue
+		}
+		fn := l.Param.Parent()
+		if fn == nil || !inModule(fn) || len(p.refsAsValue(fn)) > 0 {
+			out = append(out, l)
+			continue
+		}
+		idx := -1
+		for i, prm := range fn.Params {
+			if prm == l.Param {
+				idx = i
+			}
+		}
+		sites := p.callersOfStatic(fn)
+		if idx < 0 || len(sites) == 0 {
+			out = append(out, l)
+			continue
+		}
+		for _, s := range sites {
+			cc := callOf(s)
+			if cc == nil || idx >= len(cc.Args) {
+				out = append(out, l)
+				continue
+			}
+			out = append(out, p.originLeaves(cc.Args[idx], depth-1)...)
+		}
+	}
+	return out
+}
